@@ -216,87 +216,90 @@ impl GraphInline {
         }
     }
 
-    pub fn ref_keys(&self) -> Vec<Key> {
+    /// keys of the notes this inline links to; link urls are relative to the directory
+    /// (`relative_to`) of the note that contains the inline
+    pub fn ref_keys(&self, relative_to: &str) -> Vec<Key> {
         match self {
-            GraphInline::Emph(emph) => emph.iter().flat_map(|inline| inline.ref_keys()).collect(),
+            GraphInline::Emph(emph) => emph.iter().flat_map(|inline| inline.ref_keys(relative_to)).collect(),
             GraphInline::Underline(underline) => underline
                 .iter()
-                .flat_map(|inline| inline.ref_keys())
+                .flat_map(|inline| inline.ref_keys(relative_to))
                 .collect(),
             GraphInline::Strong(strong) => {
-                strong.iter().flat_map(|inline| inline.ref_keys()).collect()
+                strong.iter().flat_map(|inline| inline.ref_keys(relative_to)).collect()
             }
             GraphInline::Strikeout(strikeout) => strikeout
                 .iter()
-                .flat_map(|inline| inline.ref_keys())
+                .flat_map(|inline| inline.ref_keys(relative_to))
                 .collect(),
             GraphInline::Superscript(superscript) => superscript
                 .iter()
-                .flat_map(|inline| inline.ref_keys())
+                .flat_map(|inline| inline.ref_keys(relative_to))
                 .collect(),
             GraphInline::Subscript(subscript) => subscript
                 .iter()
-                .flat_map(|inline| inline.ref_keys())
+                .flat_map(|inline| inline.ref_keys(relative_to))
                 .collect(),
             GraphInline::SmallCaps(small_caps) => small_caps
                 .iter()
-                .flat_map(|inline| inline.ref_keys())
+                .flat_map(|inline| inline.ref_keys(relative_to))
                 .collect(),
-            GraphInline::Link(_, _, _, _) => {
-                self.ref_key().map(|key| vec![key]).unwrap_or_default()
-            }
+            GraphInline::Link(_, _, _, _) => self
+                .ref_key(relative_to)
+                .map(|key| vec![key])
+                .unwrap_or_default(),
             GraphInline::Image(_, _, inlines) => inlines
                 .iter()
-                .flat_map(|inline| inline.ref_keys())
+                .flat_map(|inline| inline.ref_keys(relative_to))
                 .collect(),
             _ => vec![],
         }
     }
 
-    pub fn normalize(&self, context: impl InlinesContext) -> GraphInline {
+    pub fn normalize(&self, context: impl InlinesContext, relative_to: &str) -> GraphInline {
         match self {
             GraphInline::Emph(emph) => GraphInline::Emph(
                 emph.iter()
-                    .map(|inline| inline.normalize(context))
+                    .map(|inline| inline.normalize(context, relative_to))
                     .collect(),
             ),
 
             GraphInline::Strong(emph) => GraphInline::Strong(
                 emph.iter()
-                    .map(|inline| inline.normalize(context))
+                    .map(|inline| inline.normalize(context, relative_to))
                     .collect(),
             ),
             GraphInline::Underline(emph) => GraphInline::Underline(
                 emph.iter()
-                    .map(|inline| inline.normalize(context))
+                    .map(|inline| inline.normalize(context, relative_to))
                     .collect(),
             ),
 
             GraphInline::Strikeout(emph) => GraphInline::Strikeout(
                 emph.iter()
-                    .map(|inline| inline.normalize(context))
+                    .map(|inline| inline.normalize(context, relative_to))
                     .collect(),
             ),
             GraphInline::Superscript(emph) => GraphInline::Superscript(
                 emph.iter()
-                    .map(|inline| inline.normalize(context))
+                    .map(|inline| inline.normalize(context, relative_to))
                     .collect(),
             ),
             GraphInline::Subscript(emph) => GraphInline::Subscript(
                 emph.iter()
-                    .map(|inline| inline.normalize(context))
+                    .map(|inline| inline.normalize(context, relative_to))
                     .collect(),
             ),
             GraphInline::SmallCaps(emph) => GraphInline::SmallCaps(
                 emph.iter()
-                    .map(|inline| inline.normalize(context))
+                    .map(|inline| inline.normalize(context, relative_to))
                     .collect(),
             ),
             GraphInline::Link(url, title, link_type, inlines) => {
                 if self.is_ref() {
                     let new_inlines = match *link_type {
                         LinkType::Regular => context
-                            .get_ref_title(&Key::from_file_name(url))
+                            .get_ref_title(&Key::from_rel_link_url(url, relative_to))
                             .map(|title| vec![GraphInline::Str(title)])
                             .unwrap_or(inlines.clone()),
                         LinkType::WikiLink => vec![],
@@ -352,7 +355,7 @@ impl GraphInline {
                     .collect(),
             ),
             GraphInline::Link(_, title, link_type, _) => {
-                if self.is_ref() && self.ref_key().map_or(false, |key| key.eq(target_key)) {
+                if self.is_ref() && self.ref_key("").map_or(false, |key| key.eq(target_key)) {
                     return GraphInline::Link(
                         updated_key.to_string(),
                         title.clone(),
@@ -374,9 +377,9 @@ impl GraphInline {
         }
     }
 
-    fn ref_key(&self) -> Option<Key> {
+    fn ref_key(&self, relative_to: &str) -> Option<Key> {
         match self {
-            GraphInline::Link(url, _, _, _) => Some(Key::from_file_name(url)),
+            GraphInline::Link(url, _, _, _) => Some(Key::from_rel_link_url(url, relative_to)),
             _ => None,
         }
     }
